@@ -119,11 +119,11 @@ def evaluate(world, run):
                         viol("C09", "success-writes-sdk", f"success-without-{file_class(rel)}", ex,
                              f"exit 0 but {rel} does not exist")
             # 5. verdict stability (reference = golden run: clean world, hash seed 0)
-            if g is not None and mode == "generate" and sig is None and code in (0, 1) and code != g["exit"]:
+            if g is not None and g["exit"] in (0, 1) and mode == "generate" and sig is None and code in (0, 1) and code != g["exit"]:
                 viol("C09", "verdict-stable", f"verdict-flip-{g['exit']}-to-{code}", ex,
                      f"generate({bp}) exited {g['exit']} in the clean world (hash seed 0) and {code} here "
                      f"(hash seed {step['hash_seed']}); stderr: {ex['stderr'][-300:]!r}")
-            if g is not None and mode == "check" and g["exit"] != 0 and code == 0:
+            if g is not None and mode == "check" and g["exit"] == 1 and code == 0:
                 viol("C09", "verdict-stable", "check-accepts-rejected-blueprint", ex,
                      f"--check exited 0 for {bp}, which generate rejects")
         else:
